@@ -1,5 +1,6 @@
 import JT.Basic.Bytes
 import JT.Model.Frame
+import JT.Model.Rtp
 /-!
 Line-protocol driver: one operation per input line, one result line per operation.
 `<idx> <op> <args…>` ↦ `<idx> <result>`.
@@ -9,6 +10,22 @@ open JT
 def showMsg (m : Frame.Msg) : String :=
   let h := m.h
   s!"ok id={h.id} ver={h.version} frag={h.frag} enc={h.encrypt} len={h.bodyLen} pv={h.version + 2} phone={bcd2dec h.bcd} serial={h.serial} sum={h.sum} no={h.no} body={hexOrDash m.body} verify={m.verify.toNat}"
+
+def showPkt (p : Rtp.Pkt) : String :=
+  s!"v={p.v} p={p.p} x={p.x} cc={p.cc} m={p.m} pt={p.pt} seq={p.seq} sim={bcd2dec p.sim} ch={p.ch} dt={p.dt} sub={p.sub} ts={p.ts} lifi={p.lifi} lfi={p.lfi} len={p.body.length} body={hexOrDash p.body}"
+
+def runRtp (bs : Bytes) : String :=
+  match Rtp.decode bs with
+  | .ok (p, rest) => s!"ok {showPkt p} rest={hexOrDash rest}"
+  | .short => "short"
+  | .unq => "unq"
+
+/-- iterate like the harness does; the step that fails reports its class and what is left -/
+partial def rtpAllLoop (cur : Bytes) (acc : List String) : String :=
+  match Rtp.decode cur with
+  | .ok (p, rest) => rtpAllLoop rest (s!"{p.seq}/{p.dt}/{p.body.length}/{p.ts}" :: acc)
+  | .short => s!"n={acc.length} {";".intercalate acc.reverse} end=short left={hexOrDash cur}"
+  | .unq => s!"n={acc.length} {";".intercalate acc.reverse} end=unq left={hexOrDash cur}"
 
 def runOp (op : String) (args : List String) : String :=
   match op, args with
@@ -20,6 +37,10 @@ def runOp (op : String) (args : List String) : String :=
       | .ok m => showMsg m
       | .err => "err"
       | .panic => "panic"
+  | "rtp", [f] => match ofHex f with | some bs => runRtp bs | none => "bad-op"
+  | "rtpv", [f, _] => match ofHex f with | some bs => runRtp bs | none => "bad-op"
+  | "rtpall", [f] => match ofHex f with | some bs => rtpAllLoop bs [] | none => "bad-op"
+  | "rtpallv", [f, _] => match ofHex f with | some bs => rtpAllLoop bs [] | none => "bad-op"
   | "decv", [f, _] =>
     match ofHex f with
     | none => "bad-op"
